@@ -208,6 +208,7 @@ func c03Internal(rc *RunCtx, user *Actor, step int) {
 	alsoLN := T.Chance("int.alsoLN", 1, 3)
 	mintFirst := T.Chance("int.mintfirst", 1, 3)
 	lnFail := !(alsoLN && mintFirst) && T.Chance("int.lnfail", 1, 3)
+	forged := amount > 1 && T.Chance("int.forged", 1, 4)
 	ambBefore := W.LN.Cfg.AmbiguousPct
 	rc.S.BeginEpisode()
 	rc.S.Go(name, W.Ext, true, func() {
@@ -220,8 +221,20 @@ func c03Internal(rc *RunCtx, user *Actor, step int) {
 			W.LN.PayExternal(q.Hash)
 			a.Mint("A", q, W.NewOutputs(Split(amount), ks.ID), "")
 		}
-		lq, _ := a.ReqMeltQuote("A", q.Request, 0)
+		request := q.Request
+		if forged {
+			// the attacker's own invoice with the payment hash of the mint's invoice, for one sat
+			if f, err := W.LN.ForgeInvoiceWithHash(q.Hash, 1000); err == nil {
+				request = f
+				rc.S.Probe("c03_forged_invoice_same_hash")
+			}
+		}
+		lq, _ := a.ReqMeltQuote("A", request, 0)
 		if lq == nil {
+			if forged {
+				// refused: the quote is unpaid, mint requests must be refused too
+				a.Mint("A", q, W.NewOutputs(Split(amount), ks.ID), "")
+			}
 			return
 		}
 		ins := user.Take("A", lq.Amount+lq.Reserve)
